@@ -263,3 +263,52 @@ func verif_C19_limiter_step() {
 		}
 	}
 }
+
+// verif_C19_threshold: mixes of valid commands, unrecognised commands and
+// malformed lines (too short, five octets, no space after the verb) around the
+// error threshold, all pipelined in one segment. The connection is closed
+// exactly when the fourth error arrives (the closing notice follows that
+// error's reply), nothing after it is executed or answered, nothing panics.
+func verif_C19_threshold() {
+	items := []string{"NOOP\r\n", "FROB\r\n", "ab\r\n", "abcde\r\n", "MAILFROM:<a@v>\r\n", "\r\n", "MAIL FROM:<a@v>\r\n"}
+	isErr := []bool{false, true, true, true, true, true, false}
+	n := verifBound(5, 6)
+	in := []byte("EHLO c\r\n")
+	errs := 0
+	answered := 1 // EHLO
+	closedAt := -1
+	for i := 0; i < n; i++ {
+		k := verifChoice(len(items))
+		in = append(in, items[k]...)
+		if closedAt >= 0 {
+			continue
+		}
+		answered++
+		if isErr[k] {
+			errs++
+			if errs > 3 {
+				closedAt = i
+			}
+		}
+	}
+	be := &vbackend{}
+	s, lg := verifServer(be)
+	vc, _, err := verifServe(s, in, io.EOF)
+	reps, wf := verifParseReplies(vc.out)
+	verifObserve("c19th", n, errs, closedAt, wf, len(reps), lg.lines)
+	verifAssert(err == nil && lg.lines == 0 && verifPanicEvents() == 0, "C19.threshold-no-crash")
+	verifAssert(wf, "C19.threshold-wellformed")
+	if !wf {
+		return
+	}
+	if closedAt >= 0 {
+		verifReach("C19.threshold-closed")
+		// greeting + answered + the closing notice
+		verifAssert(len(reps) == 1+answered+1, "C19.threshold-nothing-after-the-fourth-error")
+		last := reps[len(reps)-1]
+		verifAssert(last.code == 500 && last.lines[0] == "5.5.1 Too many errors. Quiting now" && vc.closed, "C19.threshold-closing-notice")
+	} else {
+		verifReach("C19.threshold-open")
+		verifAssert(len(reps) == 1+answered, "C19.threshold-one-reply-per-line")
+	}
+}
